@@ -17,6 +17,12 @@
 //     reported      get_bin_efficiency(b) (where the class implements it) == undo(1)_b, and == the reference where one is known
 //     trivial       is_trivial() => apply and undo leave the data bit-for-bit unchanged
 //     path          whole-ProjData call == related-viewgrams calls
+//     entry points  every data-changing public entry point in BOTH overload families: undo/apply(ProjData&) without a symmetries argument
+//                   (every class), ChainedBinNormalisation::apply_only_first/second, undo_only_first/second on RelatedViewgrams and on a whole
+//                   ProjData (the chain under test and, recursively, its members that are chains): member_undo_factor / member_apply_factor
+//                   (x * or / the reference efficiency of THAT member), member_roundtrip_* (apply_only_x then undo_only_x and the reverse
+//                   restore the data), member_path_dependence (whole-data-set overload == viewgram overload bin by bin), member_product_*
+//                   (only_first then only_second == the chain), member_trivial_changes_data
 // HISTORIES (hist=...): the object under test is not built once but has a past - it was built with OTHER factors (hist lists the
 // earlier states "spec/flags" separated by '>'), set up (flag g<k>: with another sampling - 0 only segment 0, 1 other span, 2 TOF <->
 // non-TOF, 3 same sampling - and another ExamInfo), used or not (flag u), then its factors were changed IN PLACE through the public
@@ -35,6 +41,7 @@
 #include "stir/recon_buildblock/find_basic_vs_nums_in_subsets.h"
 #include "stir/RelatedViewgrams.h"
 #include <limits>
+#include <functional>
 #include <array>
 
 using namespace stir;
@@ -59,14 +66,17 @@ static void do_op(const BinNormalisation& N, ProjData& pd, const shared_ptr<Data
   if (op == UNDO_APPLY) N.apply(pd, sym);
 }
 
-// executes one operation on the real object; false if STIR threw (message in what)
-static bool exec(World& w, const BinNormalisation& N, int path, Op op, const Vec& x, Vec& y, std::string& what)
+// executes one call sequence on a fresh data set: path 0 on the whole ProjData (fpd), path 1 on every group of related viewgrams x TOF bin
+// (frv); false if STIR threw (message in what)
+typedef std::function<void(ProjData&)> FPD;
+typedef std::function<void(RelatedViewgrams<float>&)> FRV;
+static bool exec_g(World& w, int path, const FPD& fpd, const FRV& frv, const Vec& x, Vec& y, std::string& what)
 {
   w.ctx.count("evaluations");
   auto pd = bn::projdata_from(w.b.pdi, w.exam, *w.bi, x);
   if (path == 0)
     {
-      if (small::throws([&] { do_op(N, *pd, w.sym, op); }, &what)) return false;
+      if (small::throws([&] { fpd(*pd); }, &what)) return false;
       y = w.bi->read(*pd);
       return true;
     }
@@ -82,7 +92,7 @@ static bool exec(World& w, const BinNormalisation& N, int path, Op op, const Vec
                   RelatedViewgrams<float> rv = pd->get_related_viewgrams(vs, w.sym_for_vg, false, k);
                   if (rv.get_num_viewgrams() > 1) w.ctx.count("related_groups_with_more_than_1_viewgram");
                   w.ctx.count("related_groups");
-                  do_op(N, rv, op);
+                  frv(rv);
                   for (auto it = rv.begin(); it != rv.end(); ++it)
                     for (int a = it->get_min_axial_pos_num(); a <= it->get_max_axial_pos_num(); ++a)
                       for (int t = it->get_min_tangential_pos_num(); t <= it->get_max_tangential_pos_num(); ++t)
@@ -97,6 +107,42 @@ static bool exec(World& w, const BinNormalisation& N, int path, Op op, const Vec
     return false;
   if (!ok) { what = "harness: a related viewgram lies outside the data"; return false; }
   return true;
+}
+// executes one operation (undo / apply / both round trips) on the real object
+static bool exec(World& w, const BinNormalisation& N, int path, Op op, const Vec& x, Vec& y, std::string& what)
+{
+  return exec_g(w, path, [&](ProjData& pd) { do_op(N, pd, w.sym, op); }, [&](RelatedViewgrams<float>& rv) { do_op(N, rv, op); }, x, y, what);
+}
+
+// ---- every public entry point that changes data, in both overload families.  Path 0 uses the whole-data-set overloads WITHOUT a symmetries
+//      argument (BinNormalisation::undo/apply(ProjData&) with the default argument, ChainedBinNormalisation::*_only_*(ProjData&)), path 1 the
+//      RelatedViewgrams overloads; ents is the sequence of calls made on one data set
+enum Ent { E_UNDO = 0, E_APPLY, E_UNDO_FIRST, E_UNDO_SECOND, E_APPLY_FIRST, E_APPLY_SECOND };
+static const char* ENTN[6] = { "undo", "apply", "undo_only_first", "undo_only_second", "apply_only_first", "apply_only_second" };
+template <class DataT>
+static void call_ent(const BinNormalisation& N, DataT& d, int e)
+{
+  const ChainedBinNormalisation* C = e >= E_UNDO_FIRST ? &dynamic_cast<const ChainedBinNormalisation&>(N) : nullptr;
+  switch (e)
+    {
+    case E_UNDO: N.undo(d); break;
+    case E_APPLY: N.apply(d); break;
+    case E_UNDO_FIRST: C->undo_only_first(d); break;
+    case E_UNDO_SECOND: C->undo_only_second(d); break;
+    case E_APPLY_FIRST: C->apply_only_first(d); break;
+    case E_APPLY_SECOND: C->apply_only_second(d); break;
+    default: throw std::runtime_error("harness: unknown entry point");
+    }
+}
+static bool exec_ents(World& w, const BinNormalisation& N, int path, const std::vector<int>& ents, const Vec& x, Vec& y, std::string& what)
+{
+  return exec_g(w, path, [&](ProjData& pd) { for (int e : ents) call_ent(N, pd, e); }, [&](RelatedViewgrams<float>& rv) { for (int e : ents) call_ent(N, rv, e); }, x, y, what);
+}
+static std::string ents_str(const std::vector<int>& ents)
+{
+  std::string s;
+  for (int e : ents) s += (s.empty() ? "" : " then ") + std::string(ENTN[e]);
+  return s;
 }
 
 struct Case
@@ -497,6 +543,151 @@ static void run_case(vmc::Ctx& ctx, const Case& c)
                         "undo of the labelling data at bin " + small::bin_str(w.bi->bins[i]) + ": whole ProjData call gives " + vmc::str(undoL[0][i]) + ", related-viewgrams call gives " + vmc::str(undoL[1][i]));
           break;
         }
+  // ---- every public entry point in BOTH overload families (whole data set without symmetries argument / related viewgrams)
+  if (any_accepted)
+    {
+      // compares got with expect on the bins of mask (relative tolerance rt); one report per key; all bins count as bin checks
+      auto cmp = [&](const std::string& key, const Vec& got, const Vec& expect, const Vec& rt, const std::vector<char>& mask, const std::string& msg) {
+        long long n = 0;
+        bool good = true;
+        for (size_t i = 0; i < nb; ++i)
+          {
+            if (!mask[i]) continue;
+            ++n;
+            if (good && !(std::fabs(got[i] - expect[i]) <= rt[i] * std::fabs(expect[i])))
+              {
+                good = false;
+                ctx.violation("clause=" + key + keytail0, kase, msg + ": bin " + small::bin_str(w.bi->bins[i]) + " (labelling value " + vmc::str(XL[i]) + ") gives " + vmc::str(got[i]) + ", expected " + vmc::str(expect[i])
+                                                                   + " (relative tolerance " + vmc::str(rt[i]) + ")");
+              }
+          }
+        ctx.count("bin_checks", n);
+        ctx.count("entry_point_bin_checks", n);
+        return good;
+      };
+      const std::vector<char> all(nb, 1);
+      // (1) undo(ProjData&) / apply(ProjData&) with the DEFAULT symmetries argument, every class (sy == 0: that is path 0 above)
+      if (c.sy != 0 && haveL[1])
+        {
+          const Vec rt2(nb, 2 * tol_chain);
+          std::vector<char> nz(nb, 0);
+          for (size_t i = 0; i < nb; ++i) nz[i] = have[i] ? eff[i] != 0 : U1[1][i] != 0;
+          if (exec_ents(w, N, 0, { E_UNDO }, XL, y, what))
+            {
+              ctx.count("accepted_calls:projdata_default_symmetries");
+              if (r.nonunit) ctx.nontrivial(kase + ";entry=projdata_default_symmetries");
+              cmp("path_dependence;path=projdata_default_symmetries;op=undo", y, undoL[1], rt2, all, "undo(ProjData&) without a symmetries argument against the related-viewgrams calls, labelling data");
+              if (haveAL[1] && exec_ents(w, N, 0, { E_APPLY }, XL, y, what))
+                cmp("path_dependence;path=projdata_default_symmetries;op=apply", y, AL[1], rt2, nz, "apply(ProjData&) without a symmetries argument against the related-viewgrams calls, labelling data");
+              if (exec_ents(w, N, 0, { E_APPLY, E_UNDO }, XL, y, what))
+                cmp("roundtrip_apply_undo;path=projdata_default_symmetries", y, XL, rt2, nz, "apply(ProjData&) then undo(ProjData&) without a symmetries argument, labelling data");
+            }
+          else
+            ctx.count(std::string("rejected_call:projdata_default_symmetries:") + (r.leaves > 1 ? (r.atten ? "chain_with_attenuation_member" : "chain_without_attenuation_member") : r.sig));
+        }
+      // (2) chains: apply_only_first/second, undo_only_first/second on related viewgrams AND on a whole ProjData, for the chain under test and
+      //     (recursively) for its members that are chains: each is multiplication / division by the reference efficiency of THAT member,
+      //     apply_only_x then undo_only_x (and the reverse) restores the data, the whole-data-set overload gives what the viewgram overload gives,
+      //     undo_only_first then undo_only_second is undo of the chain (product of the members' efficiencies), same for apply
+      std::function<void(const BinNormalisation&, const bn::Ref&, const std::string&)> members = [&](const BinNormalisation& Nc, const bn::Ref& rc, const std::string& where) {
+        const ChainedBinNormalisation* C = dynamic_cast<const ChainedBinNormalisation*>(&Nc);
+        if (!C || !rc.first || !rc.second) return;
+        ctx.count("chains_with_member_entry_points_exercised");
+        // reference of an object: the independent value where known, else the efficiency it reports
+        auto ref_of = [&](const BinNormalisation& M, const bn::Ref& rm, Vec& e, Vec& rt, std::vector<char>& hv) {
+          e.assign(nb, 0.0); rt.assign(nb, 0.0); hv.assign(nb, 0);
+          const double tolm = (4 * rm.leaves + 4) * EPS;
+          bool rep = true;
+          for (size_t i = 0; i < nb; ++i)
+            {
+              if (rm.known[i]) { e[i] = rm.eff[i]; rt[i] = rm.reltol[i] + tolm; hv[i] = 1; continue; }
+              float v = 0;
+              if (rep && small::throws([&] { v = M.get_bin_efficiency(w.bi->bins[i]); }, &what)) rep = false;
+              if (rep) { e[i] = v; rt[i] = tolm; hv[i] = 1; }
+            }
+        };
+        Vec effc, rtc; std::vector<char> hvc;
+        ref_of(Nc, rc, effc, rtc, hvc);
+        bool accp[2] = { false, false };
+        for (int m = 0; m < 2; ++m)
+          {
+            const BinNormalisation& M = m == 0 ? *C->get_first_norm() : *C->get_second_norm();
+            const bn::Ref& rm = m == 0 ? *rc.first : *rc.second;
+            const std::string mname = where + (m == 0 ? "first" : "second");
+            const int EU = m == 0 ? E_UNDO_FIRST : E_UNDO_SECOND, EA = m == 0 ? E_APPLY_FIRST : E_APPLY_SECOND;
+            Vec e, rt; std::vector<char> hv;
+            ref_of(M, rm, e, rt, hv);
+            Vec rt2(nb, 2 * (4 * rm.leaves + 4) * EPS);
+            bool mtrivial = false;
+            if (small::throws([&] { mtrivial = m == 0 ? C->is_first_trivial() : C->is_second_trivial(); }, &what)) mtrivial = false;
+            Vec resU[2], resA[2];
+            bool got[2] = { false, false };
+            std::vector<char> nz(nb, 0);
+            for (int path = 1; path >= 0; --path) // viewgrams first: they give the efficiencies as applied where there is no reference
+              {
+                const std::string kt = ";member=" + mname + ";path=" + PATHN[path];
+                const std::string on = std::string(" of the ") + mname + " member on " + (path == 0 ? "a whole ProjData" : "related viewgrams");
+                Vec u1, v;
+                if (!exec_ents(w, Nc, path, { EU }, X1, u1, what))
+                  {
+                    ctx.count("rejected_calls");
+                    ctx.count(std::string("rejected_member_call:") + PATHN[path] + ":" + rm.sig + ":sym=" + (c.sy == 0 ? "none" : "pet"));
+                    continue;
+                  }
+                ctx.count(std::string("accepted_member_calls:") + PATHN[path]);
+                ctx.count(std::string("accepted_member_calls:") + (m == 0 ? "first" : "second") + (rm.nonunit ? ":efficiencies_not_all_1" : ":efficiencies_all_1"));
+                accp[path] = true;
+                if (rm.nonunit) ctx.nontrivial(kase + ";entry=only_" + mname + ";path=" + PATHN[path]);
+                if (path == 1 || !got[1]) for (size_t i = 0; i < nb; ++i) nz[i] = hv[i] ? e[i] != 0 : u1[i] != 0;
+                std::vector<char> hvnz(nb, 0);
+                for (size_t i = 0; i < nb; ++i) hvnz[i] = hv[i] && e[i] != 0;
+                Vec expU1(nb), expUL(nb), expAL(nb, 0.0);
+                for (size_t i = 0; i < nb; ++i) { expU1[i] = e[i]; expUL[i] = XL[i] * e[i]; if (hvnz[i]) expAL[i] = XL[i] / e[i]; }
+                cmp("member_undo_factor" + kt, u1, expU1, rt, hv, std::string(ENTN[EU]) + on + ", all ones, against the reference efficiency of that member");
+                if (!exec_ents(w, Nc, path, { EU }, XL, resU[path], what)) { ctx.violation("clause=throws_after_accepting" + kt + keytail0, kase, std::string(ENTN[EU]) + " of the labelling data throws although all ones were accepted: " + what.substr(0, 120)); continue; }
+                cmp("member_undo_factor" + kt, resU[path], expUL, rt, hv, std::string(ENTN[EU]) + on + ", labelling data, against the reference efficiency of that member");
+                if (!exec_ents(w, Nc, path, { EA }, XL, resA[path], what)) { ctx.violation("clause=throws_after_accepting" + kt + keytail0, kase, std::string(ENTN[EA]) + " throws although " + ENTN[EU] + " was accepted: " + what.substr(0, 120)); continue; }
+                got[path] = true;
+                cmp("member_apply_factor" + kt, resA[path], expAL, rt, hvnz, std::string(ENTN[EA]) + on + ", labelling data, against the reference efficiency of that member");
+                if (exec_ents(w, Nc, path, { EA, EU }, XL, v, what)) cmp("member_roundtrip_apply_undo" + kt, v, XL, rt2, nz, ents_str({ EA, EU }) + on + " does not restore the labelling data");
+                if (exec_ents(w, Nc, path, { EU, EA }, XL, v, what)) cmp("member_roundtrip_undo_apply" + kt, v, XL, rt2, nz, ents_str({ EU, EA }) + on + " does not restore the labelling data");
+                if (mtrivial)
+                  {
+                    ctx.count("trivial_members_checked_bitwise");
+                    for (int k = 0; k < 2; ++k)
+                      for (size_t i = 0; i < nb; ++i)
+                        if ((float)(k == 0 ? resU[path] : resA[path])[i] != (float)XL[i])
+                          {
+                            ctx.violation("clause=member_trivial_changes_data" + kt + keytail0, kase, std::string("the ") + mname + " member reports itself trivial but " + ENTN[k == 0 ? EU : EA] + on + " changes bin " + small::bin_str(w.bi->bins[i]) + " from " + vmc::str(XL[i]) + " to " + vmc::str((k == 0 ? resU[path] : resA[path])[i]));
+                            break;
+                          }
+                  }
+              }
+            if (got[0] && got[1])
+              {
+                ctx.count("member_calls_compared_between_overload_families");
+                cmp("member_path_dependence;member=" + mname + ";op=undo", resU[0], resU[1], rt2, all, std::string(ENTN[EU]) + "(ProjData&) against " + ENTN[EU] + "(RelatedViewgrams&) of the " + mname + " member, labelling data");
+                cmp("member_path_dependence;member=" + mname + ";op=apply", resA[0], resA[1], rt2, nz, std::string(ENTN[EA]) + "(ProjData&) against " + ENTN[EA] + "(RelatedViewgrams&) of the " + mname + " member, labelling data");
+              }
+          }
+        // the chain is the product of its members
+        std::vector<char> hvcnz(nb, 0);
+        Vec expU(nb, 0.0), expA(nb, 0.0);
+        for (size_t i = 0; i < nb; ++i) { hvcnz[i] = hvc[i] && effc[i] != 0; expU[i] = XL[i] * effc[i]; if (hvcnz[i]) expA[i] = XL[i] / effc[i]; }
+        for (int path = 0; path < 2; ++path)
+          {
+            if (!accp[path]) continue;
+            const std::string kt = std::string(";member=") + where + "both;path=" + PATHN[path];
+            const std::string on = std::string(" on ") + (path == 0 ? "a whole ProjData" : "related viewgrams") + " against the product of the members' efficiencies, labelling data";
+            Vec v;
+            if (exec_ents(w, Nc, path, { E_UNDO_FIRST, E_UNDO_SECOND }, XL, v, what)) cmp("member_product_undo" + kt, v, expU, rtc, hvc, ents_str({ E_UNDO_FIRST, E_UNDO_SECOND }) + on);
+            if (exec_ents(w, Nc, path, { E_APPLY_SECOND, E_APPLY_FIRST }, XL, v, what)) cmp("member_product_apply" + kt, v, expA, rtc, hvcnz, ents_str({ E_APPLY_SECOND, E_APPLY_FIRST }) + on);
+          }
+        members(*C->get_first_norm(), *rc.first, where + "first.");
+        members(*C->get_second_norm(), *rc.second, where + "second.");
+      };
+      members(N, r, "");
+    }
   // ---- history: the object must be indistinguishable from a freshly built object with the current factors
   if (hist && fresh_ok)
     {
@@ -758,6 +949,9 @@ int main(int argc, char** argv)
   small::quiet();
   ctx.rule = "one unit = (geometry, symmetry object, normalisation object); the real object is called on the whole ProjData and on every related-viewgram group x TOF bin with all-ones, labelling and (sweep) every "
              "unit-bin data set, undo/apply/both round trips; one evaluation = one such call sequence over all bins; non-trivial = unit accepted by STIR whose reference efficiencies are not all 1; "
+             "every public entry point is exercised in both overload families: undo/apply(ProjData&) without a symmetries argument for every class, and for every chain (and, recursively, every member that is a chain) "
+             "apply_only_first/second and undo_only_first/second on related viewgrams and on a whole ProjData - each against the reference efficiency of THAT member, apply_only_x then undo_only_x (and reverse) restores the data, "
+             "whole-data-set overload = viewgram overload bin by bin, only_first then only_second = the product (each such accepted entry point with efficiencies not all 1 is a non-trivial case of its own); "
              "history units: the object was built with other factors, set up (also with another sampling / exam info) and used or not, its factors were then changed in place through the public accessors "
              "(no new allocate()/object) and set_up was called again (through the chain or on its members) - all histories with 1 (components, thorough: all kinds: 2) earlier states over the factor alphabets "
              "{labelling A, all ones, labelling B, dead crystal} x which component table x {no use, use in between} are enumerated and must behave like a freshly built object with the current factors";
